@@ -23,7 +23,7 @@ var res *vrt.Result
 type cfg struct {
 	Pcts  []float64
 	Limit uint32
-	Mask  int // 0 none, 1 all, 2.. single
+	Mask  int // 0 none, 1 all, 2..16 single, 17 all non-percentile, 18 all percentile
 }
 
 var pctLists = [][]float64{nil, {90}, {-90}, {100}, {-100}, {0}, {50, -50}, {1, 99}}
@@ -37,8 +37,20 @@ func disabled(mask int) (map[string]bool, gostatsd.TimerSubtypes) {
 		for _, k := range subKeys {
 			d[k] = true
 		}
-	case mask >= 2:
+	case mask >= 2 && mask < 2+len(subKeys):
 		d[subKeys[mask-2]] = true
+	case mask == 2+len(subKeys): // every non-percentile sub-metric ("percentiles only")
+		for _, k := range subKeys {
+			if !strings.HasSuffix(k, "-pct") {
+				d[k] = true
+			}
+		}
+	case mask == 3+len(subKeys): // every percentile sub-metric
+		for _, k := range subKeys {
+			if strings.HasSuffix(k, "-pct") {
+				d[k] = true
+			}
+		}
 	}
 	return d, gostatsd.TimerSubtypes{Lower: d["lower"], LowerPct: d["lower-pct"], Upper: d["upper"], UpperPct: d["upper-pct"], Count: d["count"], CountPct: d["count-pct"],
 		CountPerSecond: d["count-per-second"], Mean: d["mean"], MeanPct: d["mean-pct"], Median: d["median"], StdDev: d["stddev"], Sum: d["sum"], SumPct: d["sum-pct"], SumSquares: d["sum-squares"], SumSquaresPct: d["sum-squares-pct"]}
@@ -279,7 +291,7 @@ func main() {
 	var i int64
 	for _, p := range pctLists {
 		for _, l := range limits {
-			for m := 0; m < 2+len(subKeys); m++ {
+			for m := 0; m < 4+len(subKeys); m++ {
 				i++
 				if !vrt.Mine(i) || vrt.Expired() {
 					continue
